@@ -415,11 +415,12 @@ def gen_calls(rng, form, thorough):
     T, S = form["trials"], form["tests"]
     own = T + S
     bil = form["kind"] == "bilinear"
-    ffuns, fconsts = set(), set()
+    ffuns = set()
     for it in form["integrals"]:
-        ffuns |= tree_funs(it["e"]); fconsts |= tree_consts(it["e"])
-    free_fields = sorted(ffuns - set(own))
-    free_consts = sorted(fconsts)
+        ffuns |= tree_funs(it["e"])
+    field_refs, free_consts, ctx = form_symbols(form)
+    free_fields = sorted({n for n, _ in field_refs if n in ISVEC and all(ISVEC[n] == (SPACES[s_][0] if s_ else ISVEC[n])
+                                                                      for m, s_ in field_refs if m == n)})
     used = set(ffuns) | set(own)
     calls = []
 
@@ -465,6 +466,47 @@ def gen_calls(rng, form, thorough):
     if rng.random() < 0.25 and not any(ISVEC[n] for n in own):
         add("number", positional([N(1) if rng.random() < 0.5 else F(n) for n in own]), lower=True)
 
+    # ---- values that carry the NAME of the declared argument and live in another space
+    def twin_sid(n, table):
+        return rng.choice([x for x in table[ISVEC[n]] if x != home_of(form, n)])
+
+    def twin_call(kind, sids, perm=None, **extra):
+        """sids: one space id (or None = the declared function itself) per declared argument; perm: names taken"""
+        names = perm or own
+        vals = [F(m) if sd is None else F(m, sd) for m, sd in zip(names, sids)]
+        add(kind, positional(vals), lower=True, direct={"pos": [[a, v] for a, v in zip(own, vals)]}, **extra)
+
+    same = rng.random() < 0.6
+    sc_t, ve_t = rng.choice([x for x in PLAIN_TWINS[False] if all(x != home_of(form, n) for n in own if not ISVEC[n])] or ["V2"]), \
+        rng.choice([x for x in PLAIN_TWINS[True] if all(x != home_of(form, n) for n in own if ISVEC[n])] or ["W2"])
+    twin_call("twin", [(ve_t if ISVEC[n] else sc_t) if same else twin_sid(n, PLAIN_TWINS) for n in own])
+    if len(own) > 1:
+        sids = [twin_sid(n, PLAIN_TWINS) if rng.random() < 0.5 else None for n in own]
+        if all(x is None for x in sids):
+            i = rng.randrange(len(own))
+            sids[i] = twin_sid(own[i], PLAIN_TWINS)
+        if any(x is None for x in sids):
+            twin_call("twin_partial", sids)
+    if exchangeable and rng.random() < 0.6:
+        twin_call("twin_exchange", [twin_sid(n, PLAIN_TWINS) for n in S + T], perm=S + T)
+    if rng.random() < 0.5:
+        # spaces of another kind: the calculus may have to refuse (grad of an l2 function, laplace of an h1 function ..)
+        twin_call("twin_kind", [twin_sid(n, KIND_TWINS) if rng.random() < 0.8 else None for n in own], kind_twin=True)
+    if rng.random() < 0.35:
+        # the other class under the same name, where every operator applied to the argument accepts it
+        legal = {False: {"mul", "grad", "laplace"}, True: {"div", "grad", "curl"}}
+        ok = [n for n in own if ctx.get(n) and ctx[n] <= legal[ISVEC[n]]]
+        if ok:
+            chosen = [n for n in ok if rng.random() < 0.7] or ok[:1]
+            twin_call("twin_cross", [rng.choice(CROSS_TWINS[ISVEC[n]]) if n in chosen else None for n in own])
+    if rng.random() < 0.4:
+        # the value mentions the declared function AND its twin: u := u_other + 2*u
+        vals = []
+        for n in own:
+            t = F(n, twin_sid(n, PLAIN_TWINS))
+            vals.append(ADD(t, MUL(N(rng.choice([2, 3, -1])), F(n))) if rng.random() < 0.6 else t)
+        add("twin_mention", positional(vals), lower=True)
+
     # ---- keywords
     def kw_value(name, hazard=False):
         if name in free_consts:
@@ -490,6 +532,26 @@ def gen_calls(rng, form, thorough):
             ks = rng.sample(free, min(len(free), rng.choice([1, 1, 2])))
             base = rng.choice([ownv, [F(n) for n in fr]] + ([[F(n) for n in S + T]] if exchangeable else []))
             add("kw", positional(base), [(n, kw_value(n)) for n in ks], lower=True)
+        # keyword values that carry the name of the symbol they replace: the same-named field of another space / of the
+        # other class, a function named like the constant, a constant named like the field; keyword-only style calls
+        # (own arguments) and together with same-named positional values
+        for _ in range(2 if thorough else 1):
+            ks = rng.sample(free, min(len(free), rng.choice([1, 1, 2])))
+            kws = []
+            for n in ks:
+                if n in free_consts:
+                    kws.append((n, F(n, rng.choice(["V", "V2"]))))
+                else:
+                    c = rng.random()
+                    kws.append((n, F(n, twin_sid(n, PLAIN_TWINS)) if c < 0.6 else
+                                F(n, rng.choice(CROSS_TWINS[ISVEC[n]])) if (c < 0.75 and not ISVEC[n] and ctx.get(n, set()) <= {"mul"}) else
+                                F(n, twin_sid(n, PLAIN_TWINS)) if ISVEC[n] else C(n)))
+            base = ownv if rng.random() < 0.6 else [F(m, twin_sid(m, PLAIN_TWINS)) for m in own]
+            add("kw_twin", positional(base), kws, lower=True,
+                direct={"pos": [[a, v] for a, v in zip(own, base)], "kw": [[n, v] for n, v in kws]})
+        # BasicForm._update_free_variables called directly: the keyword substitution alone
+        ks = rng.sample(free, min(len(free), rng.choice([1, 2])))
+        add("update_free", positional(ownv), [(n, kw_value(n)) for n in ks], lower=True, via="update_free")
         # positional VALUES that mention a free field / constant which a keyword of the same call replaces
         # (a(f, v, f=g), a(u + f, v, f=g), a(u, c*v, c=k, f=g)): the value must keep the OLD symbol
         for _ in range(2 if thorough else 1):
@@ -541,12 +603,19 @@ def gen_calls(rng, form, thorough):
     if bil:
         add("arity_python", [pack(rng, T)] if rng.random() < 0.5 else [pack(rng, T), pack(rng, S), {"val": F(fr[0])}])
         c = rng.random()
-        if c < 0.4:
+        if c < 0.3:
             add("arity_zip", [{"seq": [F(n) for n in fr[:len(T)]] + [F(fr[-1])], "as": "tuple"}, pack(rng, S)])
-        elif c < 0.7 and len(T) > 1:
+        elif c < 0.5 and len(T) > 1:
             add("arity_zip", [{"seq": [F(n) for n in fr[:len(T) - 1]], "as": "tuple"}, pack(rng, S)])
-        else:
+        elif c < 0.65:
             add("arity_zip", [{"seq": [], "as": "tuple"}, pack(rng, fr[-len(S):])])
+        elif c < 0.85:
+            # the right number of trial values, one test value too many
+            add("arity_zip", [pack(rng, T), {"seq": [F(n) for n in S] + [F(fr[-1])], "as": "tuple"}])
+        elif len(S) > 1:
+            add("arity_zip", [pack(rng, T), {"seq": [F(n) for n in S[:-1]], "as": "list"}])
+        else:
+            add("arity_zip", [pack(rng, T), {"seq": [], "as": "tuple"}])
     else:
         c = rng.random()
         if c < 0.5:
@@ -560,7 +629,7 @@ def gen_calls(rng, form, thorough):
 
 def gen_case(rng, tier, idx):
     thorough = tier == "thorough"
-    form = gen_form(rng, thorough)
+    form = add_same_names(rng, gen_form(rng, thorough))
     form["calls"] = gen_calls(rng, form, thorough)
     return form
 
